@@ -7,7 +7,7 @@ import (
 	"verif/harness/internal/vrun"
 )
 
-const allFlaws = `{"sanity","context","connect"}`
+const allFlaws = `{"sanity","context","bcontext","connect"}`
 
 // Run is the entry point for the chain family.
 func Run(ctx *vrun.Ctx, prop string) error {
@@ -20,6 +20,8 @@ func Run(ctx *vrun.Ctx, prop string) error {
 			{Name: "deliver3", N: 3, Works: "{1,2}", Flaws: allFlaws, Graph: true},
 			{Name: "manual3", N: 3, Works: "{1,2}", Flaws: `{"connect"}`, Manual: 2, Graph: true, MaxPaths: 2500},
 			{Name: "deliver4", N: 4, Works: "{1}", Flaws: `{"connect"}`, Graph: true, MaxPaths: 1500},
+			{Name: "hdrmanual3", N: 3, Works: "{1}", Flaws: `{}`, Headers: true, Manual: 1, Graph: true, MaxPaths: 2000},
+			{Name: "manual3x3", N: 3, Works: "{1}", Flaws: `{}`, Manual: 3, Graph: true, MaxPaths: 2000},
 		}
 		if ctx.Thorough {
 			models = []ModelCfg{
@@ -28,18 +30,22 @@ func Run(ctx *vrun.Ctx, prop string) error {
 				{Name: "deliver4", N: 4, Works: "{1,2}", Flaws: allFlaws, Graph: true, MaxPaths: 150000},
 				{Name: "manual4", N: 4, Works: "{1,2}", Flaws: `{"connect"}`, Manual: 2, Graph: true, MaxPaths: 100000},
 				{Name: "deliver5", N: 5, Works: "{1,2}", Flaws: `{"connect"}`},
+				{Name: "hdrmanual3", N: 3, Works: "{1,2}", Flaws: `{"connect"}`, Headers: true, Manual: 2, Graph: true, MaxPaths: 100000},
+				{Name: "manual4x3", N: 4, Works: "{1}", Flaws: `{}`, Manual: 3, Graph: true, MaxPaths: 100000},
 			}
 		}
 	case "C01":
 		models = []ModelCfg{
-			{Name: "deliver3", N: 3, Works: "{1,2}", Flaws: allFlaws, Graph: true, Catalogue: true},
-			{Name: "deliver4", N: 4, Works: "{1}", Flaws: allFlaws, Graph: true, MaxPaths: 2000, Catalogue: true},
+			{Name: "deliver3", N: 3, Works: "{1,2}", Flaws: allFlaws, Graph: true, MaxPaths: 1600, Catalogue: true},
+			{Name: "deliver4", N: 4, Works: "{1}", Flaws: allFlaws, Graph: true, MaxPaths: 1200, Catalogue: true},
+			{Name: "hdrfirst3", N: 3, Works: "{1}", Flaws: `{"sanity","bcontext","connect"}`, Headers: true, Graph: true, MaxPaths: 1500, Catalogue: true},
 		}
 		if ctx.Thorough {
 			models = []ModelCfg{
 				{Name: "deliver3", N: 3, Works: "{1,2}", Flaws: allFlaws, Dups: true, Graph: true, Catalogue: true},
 				{Name: "deliver4", N: 4, Works: "{1,2}", Flaws: allFlaws, Graph: true, MaxPaths: 200000, Catalogue: true},
 				{Name: "deliver5", N: 5, Works: "{1,2}", Flaws: allFlaws},
+				{Name: "hdrfirst3", N: 3, Works: "{1,2}", Flaws: allFlaws, Headers: true, Graph: true, MaxPaths: 150000, Catalogue: true},
 			}
 		}
 	case "C03":
